@@ -9,7 +9,6 @@ import (
 	"fmt"
 	"io"
 	"net/http"
-	"net/http/httptest"
 	"strings"
 	"sync"
 	"testing"
@@ -26,7 +25,7 @@ func TestVerifE7Proxy(t *testing.T) {
 	var seen []string
 	var auth string
 	gstatus := 200
-	graphite := httptest.NewServer(http.HandlerFunc(func(w http.ResponseWriter, r *http.Request) {
+	graphite := vfHTTPServer(http.HandlerFunc(func(w http.ResponseWriter, r *http.Request) {
 		mu.Lock()
 		seen = append(seen, r.Method+":"+r.URL.RequestURI())
 		if u, _, ok := r.BasicAuth(); ok {
@@ -43,7 +42,7 @@ func TestVerifE7Proxy(t *testing.T) {
 	hist := map[string]int{}
 	for _, on := range []bool{true, false} {
 		opts := NewOptions()
-		opts.HTTPAddress = "127.0.0.1:0"
+		opts.HTTPAddress = vfLoopAddr()
 		opts.NSQLookupdHTTPAddresses = []string{cl.bySym["L0"]}
 		opts.Logger = vfE7NullLogger{}
 		opts.LogLevel = lg.FATAL
@@ -57,7 +56,7 @@ func TestVerifE7Proxy(t *testing.T) {
 			t.Fatal(err)
 		}
 		hs := NewHTTPServer(n)
-		ts := httptest.NewServer(hs)
+		ts := vfHTTPServer(hs)
 		for _, g := range []string{"200", "404", "500", "down"} {
 			for _, m := range []string{"GET", "POST", "PUT", "DELETE", "HEAD"} {
 				for _, who := range []string{"-", "mallory", "alice"} {
@@ -83,7 +82,7 @@ func TestVerifE7Proxy(t *testing.T) {
 							// nobody listens: point this one request's server at a dead graphite by swapping the target
 							n.graphiteURL.Host = vfE7Dead
 							hs = NewHTTPServer(n)
-							ts2 := httptest.NewServer(hs)
+							ts2 := vfHTTPServer(hs)
 							req, _ = http.NewRequest(m, ts2.URL+path, nil)
 							if who != "-" {
 								req.Header.Set("X-Forwarded-User", who)
